@@ -109,7 +109,7 @@ def run_program(ctx, exe, nk, cfg, outdir, tag, timeout=240, stall_s=45):
     env = dict(cfg.env)
     if cfg.yield_: env['PARSEC_VERIF_YIELD'] = cfg.yield_
     r = ctx.run(cmd, env=env, timeout=timeout, stall_s=stall_s, mpi=cfg.ranks if cfg.ranks > 1 else 0, tag=tag)
-    r.table = table; r.outdir = outdir
+    r.table = table; r.outdir = outdir; r.nranks = cfg.ranks
     return r
 
 
